@@ -61,7 +61,8 @@ def rule_println_forced(ctx, crate, rule="R-PRINTLN-FORCED"):
         for c in d.calls(K.PDT_DRAWABLE):
             n += 1
             sl = d.slice_args(c, [1])
-            ok = sl.has_field("orphan_lines") and D.param_reaches_monotone(d, c.args[1], D.force_param(d))
+            isc, ze = D.cond_param(d, D.force_param(d))
+            ok = sl.has_field("orphan_lines") and D.implied_true(d, c.args[1], c.bb, isc, ze)
             ctx.check(ok, rule, "orphans-force", d.name, c.loc(),
                       "pending orphan lines (bar-level println) force the MultiProgress draw",
                       "a draw with pending orphan lines can be rate limited away", cfg)
